@@ -13,6 +13,7 @@ import (
 	"go/token"
 	"go/types"
 	"sort"
+	"strings"
 
 	"golang.org/x/tools/go/ssa"
 )
@@ -23,15 +24,17 @@ type fsum struct {
 	freshRet []bool
 	whyRet   []string // why a result is not fresh
 	whyKeep  []string // why a parameter is retained
+	fnRet    []bool   // function-typed parameters whose call result flows into a result
 }
 
 type flowAn struct {
-	deps map[int]bool // parameters whose storage flows into the result being analysed
-	curF *ssa.Function
-	c    *Ctx
-	fns  []*ssa.Function
-	sum  map[*ssa.Function]*fsum
-	byFD map[*ast.FuncDecl]*ssa.Function
+	deps   map[int]bool // parameters whose storage flows into the result being analysed
+	fnDeps map[int]bool // function-typed parameters whose call result flows into it
+	curF   *ssa.Function
+	c      *Ctx
+	fns    []*ssa.Function
+	sum    map[*ssa.Function]*fsum
+	byFD   map[*ast.FuncDecl]*ssa.Function
 }
 
 func (c *Ctx) flow() *flowAn {
@@ -72,7 +75,7 @@ func (c *Ctx) flow() *flowAn {
 		if f.Signature != nil {
 			nr = f.Signature.Results().Len()
 		}
-		s := &fsum{retains: make([]bool, np), aliasRet: make([]bool, np), freshRet: make([]bool, nr), whyRet: make([]string, nr), whyKeep: make([]string, np)}
+		s := &fsum{retains: make([]bool, np), aliasRet: make([]bool, np), freshRet: make([]bool, nr), whyRet: make([]string, nr), whyKeep: make([]string, np), fnRet: make([]bool, np)}
 		for i := range s.freshRet {
 			s.freshRet[i] = true
 		}
@@ -211,8 +214,15 @@ func (fa *flowAn) update(f *ssa.Function) bool {
 				if !carriesStorage(v.Type()) {
 					continue
 				}
-				fa.deps, fa.curF = map[int]bool{}, f
+				fa.deps, fa.fnDeps, fa.curF = map[int]bool{}, map[int]bool{}, f
 				ok, why := fa.isFresh(v, map[ssa.Value]bool{})
+				for pi := range fa.fnDeps {
+					if pi < len(s.fnRet) && !s.fnRet[pi] {
+						s.fnRet[pi] = true
+						changed = true
+					}
+				}
+				fa.fnDeps = nil
 				for pi := range fa.deps {
 					if pi < len(s.aliasRet) && !s.aliasRet[pi] {
 						s.aliasRet[pi] = true
@@ -470,6 +480,16 @@ func (fa *flowAn) callFresh(call *ssa.Call, idx int, seen map[ssa.Value]bool) (b
 		return true, "" // results of standard-library calls do not alias repository collections
 	}
 	if callees == nil {
+		// the result of calling a function handed in as a parameter is as fresh as what the
+		// caller's function returns: decided at the call sites of this function
+		if p, ok := cc.Value.(*ssa.Parameter); ok && !cc.IsInvoke() && fa.fnDeps != nil && fa.curF != nil {
+			for pi, q := range fa.curF.Params {
+				if q == p {
+					fa.fnDeps[pi] = true
+					return true, ""
+				}
+			}
+		}
 		return false, "result of a dynamic call " + call.String()
 	}
 	for _, cal := range callees {
@@ -493,9 +513,60 @@ func (fa *flowAn) callFresh(call *ssa.Call, idx int, seen map[ssa.Value]bool) (b
 					return false, why
 				}
 			}
+			if ai+off < len(cs.fnRet) && cs.fnRet[ai+off] {
+				if ok, why := fa.fnResultFresh(a); !ok {
+					return false, why
+				}
+			}
 		}
 	}
 	return true, ""
+}
+
+// fnResultFresh: the results of the function value a (a closure, a function, or a function-typed
+// parameter of the function being summarised) are fresh.
+func (fa *flowAn) fnResultFresh(a ssa.Value) (bool, string) {
+	for {
+		switch x := a.(type) {
+		case *ssa.ChangeType:
+			a = x.X
+			continue
+		case *ssa.MakeClosure:
+			a = x.Fn
+			continue
+		}
+		break
+	}
+	switch x := a.(type) {
+	case *ssa.Function:
+		g := x
+		if o := g.Origin(); o != nil {
+			g = o
+		}
+		gs, ok := fa.sum[g]
+		if !ok {
+			if g.Pkg == nil || !strings.HasPrefix(g.Pkg.Pkg.Path(), modPath) {
+				return true, ""
+			}
+			return false, "result of the function value " + g.String() + ", which is not summarised"
+		}
+		for ri, fr := range gs.freshRet {
+			if !fr {
+				return false, "result of " + g.String() + ", which returns " + gs.whyRet[ri]
+			}
+		}
+		return true, ""
+	case *ssa.Parameter:
+		if fa.fnDeps != nil && fa.curF != nil {
+			for pi, q := range fa.curF.Params {
+				if q == x {
+					fa.fnDeps[pi] = true
+					return true, ""
+				}
+			}
+		}
+	}
+	return false, "result of a dynamic call through " + a.String()
 }
 
 // describe lists the summaries (debugging aid and evidence).
